@@ -68,6 +68,13 @@ const STRS: &[(&str, &str)] = &[
     ("' '", "space"),
     ("'-'", "plain"),
     ("'inf'", "numeric-like"),
+    // numerals padded with characters that are white space for Unicode but not for XPath (S is #x20 #x9 #xD #xA)
+    ("'\u{a0}12'", "unicode-space-padded-numeral"),
+    ("'7\u{2003}'", "unicode-space-padded-numeral"),
+    ("'\u{3000}5\u{3000}'", "unicode-space-padded-numeral"),
+    ("'\u{85}3'", "unicode-space-padded-numeral"),
+    ("'\u{2028}4'", "unicode-space-padded-numeral"),
+    ("'\t\n 8 \r'", "numeric-padded"),
 ];
 
 struct G<'a> {
